@@ -21,12 +21,424 @@ Definition outcome_eqb (a b:outcome) : bool :=
 Definition obs_eqb (a b:obs) : bool :=
   outcome_eqb (o_revs a) (o_revs b) && outcome_eqb (o_rev a) (o_rev b) && outcome_eqb (o_num a) (o_num b)
   && outcome_eqb (o_up a) (o_up b) && outcome_eqb (o_down a) (o_down b).
-Definition corr_C16 (i:c16_in) (o:c16_out) : bool := list_eqb' obs_eqb (run i) o.
-Definition check_C16 (i:c16_in) (o:c16_out) : bool := true.
-(* decoder of the harness' compact string literals: little-endian base 256 under a leading 1 *)
-Fixpoint dstr_fuel (fuel:nat) (n:N) : str :=
-  match fuel with
-  | O => []
-  | S f => if (n <=? 1)%N then [] else N.modulo n 256 :: dstr_fuel f (N.div n 256)
+Definition labels_eqb (a b:str * list str) : bool :=
+  streqb (fst a) (fst b) && forallb (fun l => mems l (snd b)) (snd a) && forallb (fun l => mems l (snd a)) (snd b).
+Definition corr_C16 (i:c16_in) (o:c16_out) : bool :=
+  list_eqb' labels_eqb (c_labels (run i)) (c_labels o) && list_eqb' obs_eqb (c_obs (run i)) (c_obs o).
+
+(* ====================================================================== the reference resolution
+   Written from docs/build/tutorial.rst ("Partial Revision Identifiers", "Relative Migration Identifiers")
+   and docs/build/branches.rst ("Working with Branch Labels", "More Label Syntaxes", "Branch Dependencies"),
+   independently of revision.py: no map of keys, no partial lookup over keys, no regular expression, lineage
+   as "one is an ancestor of the other along down_revision". *)
+
+(* --- the documented grammar:  [label@](head|heads|base|name)   |   [label@][head|base|name](+|-)N *)
+Inductive rsym := RName (n:str) | RHead | RHeads | RBase.
+Record ident := mkIdent { i_lbl : option str; i_sym : option rsym; i_rel : option Z }.
+
+Definition all_word (s:str) : bool := forallb is_word s.
+Definition all_digit (s:str) : bool := forallb is_digit s.
+Definition classify_word (w:str) : rsym :=
+  if streqb w s_head then RHead else if streqb w s_heads then RHeads else if streqb w s_base then RBase else RName w.
+Fixpoint dec_val (acc:Z) (s:str) : Z := match s with [] => acc | c :: r => dec_val (acc * 10 + Z.of_N (c - 48))%Z r end.
+Definition has_at (s:str) : bool := existsb (N.eqb c_at) s.
+Fixpoint cut_at (s:str) : str * str :=                     (* text before / after the first "@" *)
+  match s with
+  | [] => ([], [])
+  | c :: r => if N.eqb c c_at then ([], r) else let (a, b) := cut_at r in (c :: a, b)
   end.
-Definition dstr (n:N) : str := dstr_fuel (N.size_nat n) n.
+Fixpoint cut_word (s:str) : str * str :=
+  match s with
+  | c :: r => if is_word c then let (a, b) := cut_word r in (c :: a, b) else ([], s)
+  | [] => ([], [])
+  end.
+Definition parse_tail (lbl:option str) (t:str) : option ident :=
+  let (w, rest) := cut_word t in
+  match rest with
+  | [] => match w with [] => None | _ => Some (mkIdent lbl (Some (classify_word w)) None) end
+  | sg :: ds =>
+      if is_sign sg && nonempty ds && all_digit ds then
+        Some (mkIdent lbl (match w with [] => None | _ => Some (classify_word w) end)
+                      (Some (if N.eqb sg c_minus then (- dec_val 0 ds)%Z else dec_val 0 ds)))
+      else None
+  end.
+Definition parse_ident (q:str) : option ident :=
+  if has_at q then
+    let (l, t) := cut_at q in
+    if nonempty l && all_word l && negb (has_at t) &&
+       negb (streqb l s_head || streqb l s_heads || streqb l s_base) then parse_tail (Some l) t else None
+  else parse_tail None q.
+
+(* --- the history as a graph *)
+Definition r_parents (G:list srev) (x:str) : list str := down_of G x.
+Definition r_children (G:list srev) (x:str) : list str := map s_id (filter (fun r => mems x (s_down r)) G).
+Definition r_is_anc (G:list srev) (x y:str) : bool := mems y (reach (length G) (r_parents G) x).   (* y is x or an ancestor of x *)
+Definition r_lineage (G:list srev) (x y:str) : bool := r_is_anc G x y || r_is_anc G y x.
+Definition r_heads (G:list srev) : list str := filter (fun x => negb (existsb (fun r => mems x (s_down r)) G)) (ids G).
+Definition r_real_heads (G:list srev) : list str :=
+  filter (fun x => negb (existsb (fun r => mems x (s_down r) || mems x (s_deps r)) G)) (ids G).
+Definition r_bases (G:list srev) : list str := map s_id (filter (fun r => match s_down r with [] => true | _ => false end) G).
+Definition r_label_owner (G:list srev) (l:str) : option str :=
+  match filter (fun r => mems l (s_labels r)) G with r :: _ => Some (s_id r) | [] => None end.
+
+(* a name: a full id is that revision; a branch label is an alias of the revision that carries it; otherwise it must
+   be the start of exactly one revision id.  `within` restricts the candidates of a partial id to a lineage. *)
+Definition r_name_in (G:list srev) (within:str -> bool) (n:str) : option str :=
+  if mems n (ids G) then Some n
+  else match r_label_owner G n with
+       | Some x => Some x
+       | None => match filter (fun x => startswith x n && within x) (ids G) with [x] => Some x | _ => None end
+       end.
+Definition r_name (G:list srev) (n:str) : option str := r_name_in G (fun _ => true) n.
+
+Inductive expect :=
+| XOK (lbl:option str) (l:list elem)      (* exactly this *)
+| XSet (l:list elem)                      (* this set *)
+| XFail                                   (* a documented error *)
+| XLoose                                  (* the documentation does not say: anything but an undocumented exception class *)
+| XFree.                                  (* not an identifier of the grammar: nothing is claimed *)
+
+(* where an absolute identifier points: a list of revision ids, or an error *)
+Definition r_branch (G:list srev) (lbl:option str) : option (str -> bool) :=
+  match lbl with
+  | None => Some (fun _ => true)
+  | Some L => match r_name G L with Some b => Some (r_lineage G b) | None => None end
+  end.
+
+Definition r_abs (G:list srev) (lbl:option str) (s:rsym) : option (list str) :=      (* None = error *)
+  match s with
+  | RBase => Some []
+  | RHeads =>
+      match lbl with
+      | None => Some (r_real_heads G)
+      | Some _ => match r_heads G with
+                  | [] => Some []
+                  | hs => match r_branch G lbl with Some f => Some (filter f hs) | None => None end
+                  end
+      end
+  | RHead =>
+      match r_heads G with
+      | [] => Some []
+      | hs => match r_branch G lbl with
+              | Some f => match filter f hs with [] => Some [] | [h] => Some [h] | _ => None end
+              | None => None
+              end
+      end
+  | RName n =>
+      match r_branch G lbl with
+      | None => None
+      | Some f => match r_name_in G f n with
+                  | Some x => if f x then Some [x] else None
+                  | None => None
+                  end
+      end
+  end.
+
+(* get_revision: at most one revision; "base" is None; a label in front of base must exist *)
+Definition r_one (G:list srev) (lbl:option str) (s:rsym) : option (option str) :=
+  match r_abs G lbl s with
+  | Some [] => match r_branch G lbl with Some _ => Some None | None => None end
+  | Some [x] => Some (Some x)
+  | _ => None
+  end.
+
+(* relative walks *)
+Fixpoint r_up (G:list srev) (n:nat) (pos:option str) (f:str -> bool) : option (option str) :=
+  match n with
+  | O => Some pos
+  | S n' => match filter f (match pos with Some x => r_children G x | None => r_bases G end) with
+            | [c] => r_up G n' (Some c) f
+            | _ => None
+            end
+  end.
+Inductive dpos := DRev (x:str) | DBase.
+Fixpoint r_down (G:list srev) (n:nat) (pos:dpos) : option dpos :=
+  match n with
+  | O => Some pos
+  | S n' => match pos with
+            | DBase => None
+            | DRev x => match r_parents G x with
+                        | [] => r_down G n' DBase
+                        | [p] => r_down G n' (DRev p)
+                        | _ => None
+                        end
+            end
+  end.
+
+Definition xids (l:list str) : list elem := map EId l.
+Definition xopt (o:option str) : list elem := match o with Some x => [EId x] | None => [ENoneV] end.
+
+Definition ref_revs (G:list srev) (i:ident) : expect :=
+  match i_rel i, i_sym i with
+  | None, Some s => match r_abs G (i_lbl i) s with
+                    | Some l => match s with RHeads => XSet (xids l) | _ => XOK None (xids l) end
+                    | None => XFail
+                    end
+  | _, _ => XLoose
+  end.
+Definition ref_rev (G:list srev) (i:ident) : expect :=
+  match i_rel i, i_sym i with
+  | None, Some s => match r_one G (i_lbl i) s with Some o => XOK None (xopt o) | None => XFail end
+  | _, _ => XLoose
+  end.
+Definition ref_num (G:list srev) (i:ident) : expect :=
+  match i_rel i, i_sym i with
+  | None, Some (RName n) => XOK None [EId n]
+  | None, Some RHeads => match i_lbl i with None => XSet (xids (r_real_heads G)) | Some _ => XLoose end
+  | None, Some s => match r_abs G (i_lbl i) s with Some l => XOK None (xids l) | None => XFail end
+  | _, _ => XLoose
+  end.
+
+Definition up_result (o:option (option str)) (lbl:option str) : expect :=
+  match o with Some (Some x) => XOK lbl [EId x] | _ => XFail end.
+Definition walk_up_from (G:list srev) (start:option (option str)) (lbl:option str) (n:nat) (out_lbl:option str) : expect :=
+  match start with
+  | None => XFail
+  | Some p => match r_branch G lbl with
+              | None => XFail
+              | Some f => up_result (r_up G n p f) out_lbl
+              end
+  end.
+Definition walk_down_from (G:list srev) (start:option (option str)) (n:nat) (as_upgrade:bool) (out_lbl:option str) : expect :=
+  match start with
+  | None => XFail
+  | Some None => match n with O => XFail | _ => XLoose end
+  | Some (Some x) => match r_down G n (DRev x) with
+                     | Some (DRev y) => XOK out_lbl [EId y]
+                     | Some DBase => if as_upgrade then XOK out_lbl [] else XOK out_lbl [EBaseS]
+                     | None => XFail
+                     end
+  end.
+
+Definition ref_up (G:list srev) (cur:list str) (i:ident) : expect :=
+  match i_rel i with
+  | None => ref_revs G i
+  | Some z =>
+      match i_sym i with
+      | Some RHeads => XLoose
+      | Some s =>
+          if (0 <? z)%Z then walk_up_from G (r_one G None s) (i_lbl i) (Z.abs_nat z) None
+          else walk_down_from G (r_one G (i_lbl i) s) (Z.abs_nat z) true None
+      | None =>
+          if (0 <? z)%Z then
+            match i_lbl i with
+            | Some _ => XLoose
+            | None => match cur with
+                      | [] => walk_up_from G (Some None) None (Z.abs_nat z) None
+                      | [c] => walk_up_from G (r_one G None (classify_word c)) None (Z.abs_nat z) None
+                      | _ => XFail
+                      end
+            end
+          else XFail
+      end
+  end.
+
+Definition ref_down (G:list srev) (cur:list str) (i:ident) : expect :=
+  match i_rel i with
+  | None => match i_sym i with
+            | Some s => match r_one G None s with Some o => XOK (i_lbl i) (xopt o) | None => XFail end
+            | None => XFree
+            end
+  | Some z =>
+      match i_sym i with
+      | Some RHeads => XLoose
+      | Some s =>
+          if (0 <? z)%Z then walk_up_from G (r_one G None s) (i_lbl i) (Z.abs_nat z) (i_lbl i)
+          else if (z =? 0)%Z then match r_one G None s with Some (Some x) => XOK (i_lbl i) [EId x] | _ => XFail end
+          else walk_down_from G (r_one G (i_lbl i) s) (Z.abs_nat z) false (i_lbl i)
+      | None =>
+          if (z <? 0)%Z then
+            match i_lbl i with
+            | Some _ => XLoose
+            | None => match cur with
+                      | [] => XFail
+                      | c :: _ => walk_down_from G (r_one G (Some c) (classify_word c)) (Z.abs_nat z) false (Some c)
+                      end
+            end
+          else XFail
+      end
+  end.
+
+(* --- agreement of an observed outcome with what the reference expects *)
+Definition documented (e:xerr) : bool :=
+  match e with CmdMultipleHeads | CmdResolution | CmdRevision | CmdRange => true | _ => false end.
+Definition elem_in (l:list elem) (e:elem) : bool := existsb (elem_eqb e) l.
+Definition agree (x:expect) (o:outcome) : bool :=
+  match x, o with
+  | XOK lbl l, OK lbl' l' => optstr_eqb lbl lbl' && list_eqb' elem_eqb l l'
+  | XSet l, OK None l' => forallb (elem_in l') l && forallb (elem_in l) l' && Nat.eqb (length l) (length l')
+  | XFail, Fail e => documented e
+  | XLoose, OK _ _ => true
+  | XLoose, Fail e => documented e
+  | XFree, _ => true
+  | _, _ => false
+  end.
+
+Definition load_ok (G:list srev) : bool :=        (* a label must not repeat an id or another label *)
+  let labs := flat_map s_labels G in
+  forallb (fun l => negb (mems l (ids G))) labs && Nat.eqb (length (dedupes labs)) (length labs).
+
+Definition query_okb (G:list srev) (cur:list str) (q:str) (ob:obs) : bool :=
+  if load_ok G then
+    match parse_ident q with
+    | None => true
+    | Some i => agree (ref_revs G i) (o_revs ob) && agree (ref_rev G i) (o_rev ob) && agree (ref_num G i) (o_num ob)
+                && agree (ref_up G cur i) (o_up ob) && agree (ref_down G cur i) (o_down ob)
+    end
+  else (* the history does not load: every lookup is the documented error *)
+    agree XFail (o_revs ob) && agree XFail (o_rev ob) && agree XFail (o_num ob) && agree XFail (o_up ob) && agree XFail (o_down ob).
+
+Fixpoint all2 {A B} (f:A -> B -> bool) (a:list A) (b:list B) : bool :=
+  match a, b with
+  | [], [] => true
+  | x :: a', y :: b' => f x y && all2 f a' b'
+  | _, _ => false
+  end.
+
+(* branch labels as documented ("applies to this revision, all descendants of this revision, as well as all ancestors of
+   this revision up until the preceding branch point"): every descendant-or-self of the revision that carries a label has
+   it, and a revision only has labels of revisions it shares lineage with *)
+Definition labels_okb (G:list srev) (bl:list (str * list str)) : bool :=
+  match bl with
+  | [] => true                                        (* the history did not load: nothing to say *)
+  | _ =>
+      list_eqb' streqb (map fst bl) (ids G) &&
+      forallb (fun R => forallb (fun l =>
+                 forallb (fun p => negb (r_is_anc G (fst p) (s_id R)) || mems l (snd p)) bl) (s_labels R)) G &&
+      forallb (fun p => forallb (fun l =>
+                 match r_label_owner G l with Some o => r_lineage G o (fst p) | None => false end) (snd p)) bl
+  end.
+
+(* the property: every identifier string of the batch is resolved as the reference says *)
+Definition C16_holds (i:c16_in) (o:c16_out) : Prop :=
+  labels_okb (i_revs i) (c_labels o) = true /\
+  Forall2 (fun q ob => query_okb (i_revs i) (i_cur i) q ob = true) (i_queries i) (c_obs o).
+Definition check_C16 (i:c16_in) (o:c16_out) : bool :=
+  labels_okb (i_revs i) (c_labels o) && all2 (query_okb (i_revs i) (i_cur i)) (i_queries i) (c_obs o).
+
+(* character constants used by the harness' case files (cheaper for coqc to read than numerals) *)
+Definition c32 : N := 32%N.
+Definition c33 : N := 33%N.
+Definition c34 : N := 34%N.
+Definition c35 : N := 35%N.
+Definition c36 : N := 36%N.
+Definition c37 : N := 37%N.
+Definition c38 : N := 38%N.
+Definition c39 : N := 39%N.
+Definition c40 : N := 40%N.
+Definition c41 : N := 41%N.
+Definition c42 : N := 42%N.
+Definition c43 : N := 43%N.
+Definition c44 : N := 44%N.
+Definition c45 : N := 45%N.
+Definition c46 : N := 46%N.
+Definition c47 : N := 47%N.
+Definition c48 : N := 48%N.
+Definition c49 : N := 49%N.
+Definition c50 : N := 50%N.
+Definition c51 : N := 51%N.
+Definition c52 : N := 52%N.
+Definition c53 : N := 53%N.
+Definition c54 : N := 54%N.
+Definition c55 : N := 55%N.
+Definition c56 : N := 56%N.
+Definition c57 : N := 57%N.
+Definition c58 : N := 58%N.
+Definition c59 : N := 59%N.
+Definition c60 : N := 60%N.
+Definition c61 : N := 61%N.
+Definition c62 : N := 62%N.
+Definition c63 : N := 63%N.
+Definition c64 : N := 64%N.
+Definition c65 : N := 65%N.
+Definition c66 : N := 66%N.
+Definition c67 : N := 67%N.
+Definition c68 : N := 68%N.
+Definition c69 : N := 69%N.
+Definition c70 : N := 70%N.
+Definition c71 : N := 71%N.
+Definition c72 : N := 72%N.
+Definition c73 : N := 73%N.
+Definition c74 : N := 74%N.
+Definition c75 : N := 75%N.
+Definition c76 : N := 76%N.
+Definition c77 : N := 77%N.
+Definition c78 : N := 78%N.
+Definition c79 : N := 79%N.
+Definition c80 : N := 80%N.
+Definition c81 : N := 81%N.
+Definition c82 : N := 82%N.
+Definition c83 : N := 83%N.
+Definition c84 : N := 84%N.
+Definition c85 : N := 85%N.
+Definition c86 : N := 86%N.
+Definition c87 : N := 87%N.
+Definition c88 : N := 88%N.
+Definition c89 : N := 89%N.
+Definition c90 : N := 90%N.
+Definition c91 : N := 91%N.
+Definition c92 : N := 92%N.
+Definition c93 : N := 93%N.
+Definition c94 : N := 94%N.
+Definition c95 : N := 95%N.
+Definition c96 : N := 96%N.
+Definition c97 : N := 97%N.
+Definition c98 : N := 98%N.
+Definition c99 : N := 99%N.
+Definition c100 : N := 100%N.
+Definition c101 : N := 101%N.
+Definition c102 : N := 102%N.
+Definition c103 : N := 103%N.
+Definition c104 : N := 104%N.
+Definition c105 : N := 105%N.
+Definition c106 : N := 106%N.
+Definition c107 : N := 107%N.
+Definition c108 : N := 108%N.
+Definition c109 : N := 109%N.
+Definition c110 : N := 110%N.
+Definition c111 : N := 111%N.
+Definition c112 : N := 112%N.
+Definition c113 : N := 113%N.
+Definition c114 : N := 114%N.
+Definition c115 : N := 115%N.
+Definition c116 : N := 116%N.
+Definition c117 : N := 117%N.
+Definition c118 : N := 118%N.
+Definition c119 : N := 119%N.
+Definition c120 : N := 120%N.
+Definition c121 : N := 121%N.
+Definition c122 : N := 122%N.
+Definition c123 : N := 123%N.
+Definition c124 : N := 124%N.
+Definition c125 : N := 125%N.
+Definition c126 : N := 126%N.
+
+(* ====================================================================== graph-theoretic notions used by the theorem statements *)
+Inductive path (succ : str -> list str) : str -> str -> Prop :=
+| path_refl x : path succ x x
+| path_step x y z : In y (succ x) -> path succ y z -> path succ x z.
+(* y is x or an ancestor of x along down_revision *)
+Definition anc (G:list srev) (x y:str) : Prop := path (down_of G) x y.
+Definition lineage (G:list srev) (x y:str) : Prop := anc G x y \/ anc G y x.
+(* acyclicity certificate: a topological rank *)
+Definition ranked (G:list srev) (rk:str -> nat) : Prop :=
+  (forall r d, In r G -> In d (s_down r) -> rk d < rk (s_id r)) /\ (forall x, rk x <= length G).
+Definition refs_ok (G:list srev) : Prop := forall r d, In r G -> In d (s_down r) -> In d (ids G).
+(* Revision.verify_rev_id, plus: an id is not one of the three symbolic names *)
+Definition legal_id (x:str) : Prop :=
+  x <> [] /\ (forall c, In c x -> c <> c_at /\ c <> c_plus /\ c <> c_minus) /\ x <> s_head /\ x <> s_heads /\ x <> s_base.
+Definition wfG (G:list srev) : Prop := NoDup (ids G) /\ refs_ok G /\ (forall x, In x (ids G) -> legal_id x).
+Definition is_head (G:list srev) (x:str) : Prop := In x (ids G) /\ forall r, In r G -> ~ In x (s_down r).
+Definition is_real_head (G:list srev) (x:str) : Prop := In x (ids G) /\ forall r, In r G -> ~ In x (s_down r) /\ ~ In x (s_deps r).
+Definition prefix_of (p k:str) : Prop := exists t, k = p ++ t.
+Definition ids_len_ge4 (G:list srev) : Prop := forall x, In x (ids G) -> 4 <= length x.
+Definition labels_prefix_free (G:list srev) (p:str) : Prop := forall r l, In r G -> In l (s_labels r) -> ~ prefix_of p l.
+(* exactly n down_revision steps, every revision on the way having a single down revision *)
+Inductive down_chain (G:list srev) : nat -> str -> str -> Prop :=
+| dc_0 x : down_chain G 0 x x
+| dc_S n x r p y : find_rev G x = Some r -> s_down r = [p] -> down_chain G n p y -> down_chain G (S n) x y.
+(* exactly n steps up, each time to the ONLY child (among those accepted by f) *)
+Inductive up_chain (G:list srev) (f:str -> Prop) : nat -> str -> str -> Prop :=
+| uc_0 x : up_chain G f 0 x x
+| uc_S n x c y : In x (down_of G c) -> f c -> (forall c', In x (down_of G c') -> In c' (ids G) -> f c' -> c' = c) ->
+                 up_chain G f n c y -> up_chain G f (S n) x y.
